@@ -331,13 +331,17 @@ impl<K: CacheKey + 'static> DiskCache<K> {
         }
     }
 
-    /// Write data to disk file atomically
-    async fn write_file(
+    /// Write data to a temporary file next to `path` and return its path.
+    ///
+    /// The caller publishes the file by renaming it over `path`; it does so
+    /// under the index lock, so that the file and its index entry appear
+    /// together.
+    async fn write_temp_file(
         &self,
         path: &Path,
         data: &Bytes,
         expires_at: Option<SystemTime>,
-    ) -> CacheResult<()> {
+    ) -> CacheResult<PathBuf> {
         let _permit = self
             .io_semaphore
             .acquire()
@@ -401,21 +405,11 @@ impl<K: CacheKey + 'static> DiskCache<K> {
         }
         #[cfg(feature = "verif-hooks")] crate::verif_hooks::sched_point("disk.write_file.temp-written");
 
-        // Atomic rename
-        fs::rename(&temp_path, path).map_err(CacheError::Io)?;
-        #[cfg(feature = "verif-hooks")] crate::verif_hooks::crash_point("disk.write.after_rename", None);
-
-        Ok(())
+        Ok(temp_path)
     }
 
-    /// Read data from disk file
-    async fn read_file(&self, path: &Path) -> CacheResult<Bytes> {
-        let _permit = self
-            .io_semaphore
-            .acquire()
-            .await
-            .map_err(|_| CacheError::Backend("Failed to acquire I/O semaphore".to_string()))?;
-
+    /// Read data from disk file. The caller holds an I/O permit.
+    fn read_file_now(&self, path: &Path) -> CacheResult<Bytes> {
         let mut file = File::open(path).map_err(CacheError::Io)?;
         let metadata = file.metadata().map_err(CacheError::Io)?;
         let file_size = metadata.len() as usize;
@@ -486,13 +480,28 @@ impl<K: CacheKey + 'static> DiskCache<K> {
                 // Recursively clear subdirectory, then remove it
                 self.clear_directory_recursive(&path)?;
                 let _ = fs::remove_dir(&path); // Best effort - might fail if not empty
-            } else {
+            } else if !Self::is_own_temp_file(&path) {
                 // Remove file
                 let _ = fs::remove_file(&path);
             }
         }
 
         Ok(())
+    }
+
+    /// The temporary file of a write this process has in flight
+    /// (`<name>.<pid>-<n>.tmp`): its put publishes it when it completes.
+    fn is_own_temp_file(path: &Path) -> bool {
+        path.file_name()
+            .and_then(|name| name.to_str())
+            .and_then(|name| name.strip_suffix(".tmp"))
+            .and_then(|stem| stem.rsplit_once('.'))
+            .and_then(|(_, tag)| tag.split_once('-'))
+            .is_some_and(|(pid, n)| {
+                pid == std::process::id().to_string()
+                    && !n.is_empty()
+                    && n.bytes().all(|b| b.is_ascii_digit())
+            })
     }
 
     /// Count cache files recursively (helper for size method)
@@ -527,18 +536,33 @@ impl<K: CacheKey + 'static> AsyncCache<K> for DiskCache<K> {
     async fn get(&self, key: &K) -> CacheResult<Option<Bytes>> {
         let start_time = Instant::now();
 
-        // Check index first
-        let entry_info = {
+        let _permit = self
+            .io_semaphore
+            .acquire()
+            .await
+            .map_err(|_| CacheError::Backend("Failed to acquire I/O semaphore".to_string()))?;
+
+        // Check index first. The file of a live entry is read while the index
+        // lock is held: a put publishes its file under the write lock, so the
+        // bytes read here are the bytes of the entry looked up, not those of a
+        // put that completes in between.
+        let looked_up = {
             let index = self
                 .index
                 .read()
                 .map_err(|_| CacheError::LockTimeout("index read lock".to_string()))?;
-            index.get(key).cloned()
+            index.get(key).map(|entry| {
+                if entry.is_expired() {
+                    (entry.clone(), None)
+                } else {
+                    (entry.clone(), Some(self.read_file_now(&entry.file_path)))
+                }
+            })
         };
         #[cfg(feature = "verif-hooks")] crate::verif_hooks::sched_point("disk.get.index-read");
 
-        if let Some(entry) = entry_info {
-            if entry.is_expired() {
+        match looked_up {
+            Some((_, None)) => {
                 // Remove expired entry. The index may have changed since it was read:
                 // only an entry that is still there and still expired is removed, and the
                 // counters follow what was actually removed.
@@ -555,91 +579,107 @@ impl<K: CacheKey + 'static> AsyncCache<K> for DiskCache<K> {
                 }
 
                 self.metrics.record_get(false, start_time.elapsed());
-                return Ok(None);
+                Ok(None)
             }
-
-            // Read file content
-            match self.read_file(&entry.file_path).await {
-                Ok(data) => {
-                    #[cfg(feature = "verif-hooks")] crate::verif_hooks::sched_point("disk.get.file-read");
-                    // Update access time
-                    if let Ok(mut index) = self.index.write()
-                        && let Some(entry) = index.get_mut(key)
-                    {
-                        entry.update_access();
-                    }
-
-                    self.metrics.record_get(true, start_time.elapsed());
-                    Ok(Some(data))
+            Some((_, Some(Ok(data)))) => {
+                #[cfg(feature = "verif-hooks")] crate::verif_hooks::sched_point("disk.get.file-read");
+                // Update access time
+                if let Ok(mut index) = self.index.write()
+                    && let Some(entry) = index.get_mut(key)
+                {
+                    entry.update_access();
                 }
-                Err(e) => {
-                    #[cfg(feature = "verif-hooks")] crate::verif_hooks::sched_point("disk.get.file-read-failed");
-                    // File read failed - remove from index (if another task has not
-                    // done so already; the counters follow what was actually removed)
-                    if let Ok(mut index) = self.index.write()
-                        && let Some(removed) = index.remove(key)
-                    {
-                        self.entry_count.fetch_sub(1, Ordering::Relaxed);
-                        self.disk_usage
-                            .fetch_sub(removed.size_bytes as u64, Ordering::Relaxed);
-                    }
 
-                    self.metrics.record_get(false, start_time.elapsed());
-                    Err(e)
-                }
+                self.metrics.record_get(true, start_time.elapsed());
+                Ok(Some(data))
             }
-        } else {
-            // Not in index - try to find file on disk as fallback
-            let file_path = self.get_file_path(key)?;
-            // The file's modification time is the expiry its writer stamped it with
-            let expires_at = fs::metadata(&file_path)
-                .and_then(|metadata| metadata.modified())
-                .ok();
-            if expires_at.is_some_and(|expires| SystemTime::now() < expires) {
+            Some((entry, Some(Err(e)))) => {
+                #[cfg(feature = "verif-hooks")] crate::verif_hooks::sched_point("disk.get.file-read-failed");
+                // The file of an indexed entry is gone behind the cache's back:
+                // drop the entry, unless another task has replaced or removed it
+                // already (the counters follow what was actually removed)
+                if let Ok(mut index) = self.index.write()
+                    && index.get(key).is_some_and(|current| {
+                        current.file_path == entry.file_path
+                            && current.created_at == entry.created_at
+                            && current.size_bytes == entry.size_bytes
+                    })
+                    && let Some(removed) = index.remove(key)
+                {
+                    self.entry_count.fetch_sub(1, Ordering::Relaxed);
+                    self.disk_usage
+                        .fetch_sub(removed.size_bytes as u64, Ordering::Relaxed);
+                }
+
+                self.metrics.record_get(false, start_time.elapsed());
+                Err(e)
+            }
+            None => {
+                // Not in index - a file left by an earlier instance may be on disk.
+                // The lookup, the read and the indexing happen under the index lock,
+                // like the publication of a put: the file found here is either such
+                // a leftover or already indexed by a put that completed in between.
+                let file_path = self.get_file_path(key)?;
                 #[cfg(feature = "verif-hooks")] crate::verif_hooks::sched_point("disk.get.fallback-file-exists");
-                // Found file on disk - try to read it and add to index
-                match self.read_file(&file_path).await {
-                    Ok(data) => {
-                        let size_bytes = data.len();
-                        let metadata = fs::metadata(&file_path).map_err(CacheError::Io)?;
-                        let created = metadata.created().unwrap_or_else(|_| SystemTime::now());
 
-                        // Add to index for future lookups
-                        let entry = DiskCacheEntry {
-                            file_path: file_path.clone(),
-                            size_bytes,
-                            created_at: created,
-                            expires_at,
-                            last_accessed: SystemTime::now(),
-                            access_count: 1,
-                        };
-                        #[cfg(feature = "verif-hooks")] crate::verif_hooks::sched_point("disk.get.fallback-file-read");
+                let found = {
+                    let mut index = self
+                        .index
+                        .write()
+                        .map_err(|_| CacheError::LockTimeout("index write lock".to_string()))?;
 
-                        // A put may have indexed the key (with its expiry) since the
-                        // lookup above: keep that entry, and count the key only once.
-                        if let Ok(mut index) = self.index.write()
-                            && !index.contains_key(key)
-                        {
-                            index.insert(key.clone(), entry);
-                            self.entry_count.fetch_add(1, Ordering::Relaxed);
-                            self.disk_usage
-                                .fetch_add(size_bytes as u64, Ordering::Relaxed);
+                    if let Some(entry) = index.get_mut(key) {
+                        // Indexed since the lookup above
+                        if entry.is_expired() {
+                            None
+                        } else {
+                            let data = self.read_file_now(&entry.file_path).ok();
+                            if data.is_some() {
+                                entry.update_access();
+                            }
+                            data
                         }
+                    } else {
+                        // The file's modification time is the expiry its writer stamped it with
+                        let metadata = fs::metadata(&file_path).ok();
+                        let expires_at = metadata.as_ref().and_then(|m| m.modified().ok());
+                        if expires_at.is_some_and(|expires| SystemTime::now() < expires) {
+                            // Found file on disk - read it and add it to the index
+                            let data = self.read_file_now(&file_path).ok();
+                            if let Some(data) = &data {
+                                let created = metadata
+                                    .and_then(|m| m.created().ok())
+                                    .unwrap_or_else(SystemTime::now);
+                                index.insert(
+                                    key.clone(),
+                                    DiskCacheEntry {
+                                        file_path: file_path.clone(),
+                                        size_bytes: data.len(),
+                                        created_at: created,
+                                        expires_at,
+                                        last_accessed: SystemTime::now(),
+                                        access_count: 1,
+                                    },
+                                );
+                                self.entry_count.fetch_add(1, Ordering::Relaxed);
+                                self.disk_usage
+                                    .fetch_add(data.len() as u64, Ordering::Relaxed);
+                            }
+                            data
+                        } else {
+                            if expires_at.is_some() {
+                                // Expired: delete the file, as for an expired entry of the index
+                                let _ = fs::remove_file(&file_path);
+                            }
+                            None
+                        }
+                    }
+                };
+                #[cfg(feature = "verif-hooks")] crate::verif_hooks::sched_point("disk.get.fallback-file-read");
 
-                        self.metrics.record_get(true, start_time.elapsed());
-                        return Ok(Some(data));
-                    }
-                    Err(_) => {
-                        // File exists but couldn't read - ignore and fall through to miss
-                    }
-                }
-            } else if expires_at.is_some() {
-                // Expired: delete the file, as for an expired entry of the index
-                let _ = fs::remove_file(&file_path);
+                self.metrics.record_get(found.is_some(), start_time.elapsed());
+                Ok(found)
             }
-
-            self.metrics.record_get(false, start_time.elapsed());
-            Ok(None)
         }
     }
 
@@ -657,15 +697,29 @@ impl<K: CacheKey + 'static> AsyncCache<K> for DiskCache<K> {
 
         // Write data to disk
         let expires_at = SystemTime::now().checked_add(ttl);
-        self.write_file(&file_path, &value, expires_at).await?;
+        let temp_path = self
+            .write_temp_file(&file_path, &value, expires_at)
+            .await?;
         #[cfg(feature = "verif-hooks")] crate::verif_hooks::sched_point("disk.put_with_ttl.file-written");
 
-        // Update index
+        // Publish the file and index it in one step: get, remove and clear take
+        // the same lock, so none of them sees the file without its entry or
+        // the entry without its file.
         {
-            let mut index = self
-                .index
-                .write()
-                .map_err(|_| CacheError::LockTimeout("index write lock".to_string()))?;
+            let mut index = match self.index.write() {
+                Ok(index) => index,
+                Err(_) => {
+                    let _ = fs::remove_file(&temp_path);
+                    return Err(CacheError::LockTimeout("index write lock".to_string()));
+                }
+            };
+
+            // Atomic rename
+            if let Err(e) = fs::rename(&temp_path, &file_path) {
+                let _ = fs::remove_file(&temp_path);
+                return Err(CacheError::Io(e));
+            }
+            #[cfg(feature = "verif-hooks")] crate::verif_hooks::crash_point("disk.write.after_rename", None);
 
             let entry = DiskCacheEntry::new(file_path.clone(), size_bytes, Some(ttl));
 
@@ -756,16 +810,17 @@ impl<K: CacheKey + 'static> AsyncCache<K> for DiskCache<K> {
         }
 
         index.clear();
-        drop(index); // Release lock early to reduce contention
+
+        // Also clean up any remaining files and subdirectories. Still under the
+        // lock: a put that publishes its file afterwards keeps it.
+        let swept = self.clear_directory_recursive(&self.config.cache_dir);
+        drop(index);
         #[cfg(feature = "verif-hooks")] crate::verif_hooks::sched_point("disk.clear.index-cleared");
 
         self.metrics.reset();
         #[cfg(feature = "verif-hooks")] crate::verif_hooks::sched_point("disk.clear.counters-reset");
 
-        // Also clean up any remaining files and subdirectories
-        self.clear_directory_recursive(&self.config.cache_dir)?;
-
-        Ok(())
+        swept
     }
 
     async fn stats(&self) -> CacheResult<crate::stats::CacheStats> {
